@@ -324,16 +324,18 @@ TypeOK ==
         /\ c \in cfg.ignored => (ledger[p][c] = NoE /\ q[p][c] = NoT)
 Ideal == dev = {}
 \* a block goes out only if it is stored, on the peer's current want-list and permitted by the filter
-BlockOnlyIfPresentWantedPermitted ==
-  Ideal => \A c \in out.blocks : c \in bs /\ c \in out.wanted /\ ~Denied(out.p, c)
-HaveOnlyIfPresent == Ideal => \A c \in out.haves : c \in bs /\ c \in out.wanted /\ ~Denied(out.p, c)
-DontHaveOnlyIfAbsentAndAsked ==
-  Ideal => \A c \in out.dhs : c \in out.asked /\ (c \notin bs \/ Denied(out.p, c))
+RawBlockOnly == \A c \in out.blocks : c \in bs /\ c \in out.wanted /\ ~Denied(out.p, c)
+RawHaveOnly  == \A c \in out.haves : c \in bs /\ c \in out.wanted /\ ~Denied(out.p, c)
+RawDontHaveOnly == \A c \in out.dhs : c \in out.asked /\ (c \notin bs \/ Denied(out.p, c))
+BlockOnlyIfPresentWantedPermitted == Ideal => RawBlockOnly
+HaveOnlyIfPresent == Ideal => RawHaveOnly
+DontHaveOnlyIfAbsentAndAsked == Ideal => RawDontHaveOnly
 LedgerBounded == \A p \in Peers : Cardinality(Dom(ledger[p]) \cup Dom(ghost[p])) <= cfg.limit
 NoGhostWhenIdeal == Ideal => \A p \in Peers : Dom(ghost[p]) = {}
 \* tasks are queued only for current wants or for denied CIDs, and the queue is bounded
 QueueBounded == Ideal => \A p \in Peers : Cardinality(QDom(q[p])) <= 2 * cfg.limit
 \* every current want whose block is stored has a queued task that will deliver it
+RawPresentWantHasTask == \A p \in Peers : \A c \in Dom(ledger[p]) : c \in bs => (q[p][c] # NoT /\ q[p][c].have)
 PresentWantHasTask ==
   Ideal => \A p \in Peers : \A c \in Dom(ledger[p]) : c \in bs => (q[p][c] # NoT /\ q[p][c].have)
 \* after an overflow the ledger holds the best wants: wants without a local block go first, then the
